@@ -64,6 +64,9 @@ def plan(tier, seed):
     # (c) on the serendipity families, whose mixed containers pair the quadratic displacements with cell-wise constant duals
     for fk in ("ps", "axi", "3d"):
         cases.append(dict(key=f"condensed-quadratic/{fk}", kind="ni-quadratic", fk=fk, seed=seed, cost=12 if fk == "3d" else 5))
+    # a condensed body CREATED on a field that already carries a (volume-changing) deformation: its state is that of the field
+    for fk in ("3d", "ps", "axi"):
+        cases.append(dict(key=f"condensed-created-deformed/{fk}", kind="ni-created", fk=fk, seed=seed, cost=3))
     for fam in ("quad", "hexahedron", "quad9"):
         for n in (2, 3, 4, 5) if fam != "hexahedron" else (2, 3, 4):
             cases.append(dict(key=f"uniform/{fam}/n={n}", kind="uniform", fam=fam, n=n, seed=seed, cost=4))
@@ -382,6 +385,42 @@ def run(case):
             c.cmp(f"substep{s_}/converged/J", "converged volume ratios", la[-1][2], lb[-1][2], 1e-7)
             c.cmp(f"substep{s_}/converged/p", "converged pressures", 1 + la[-1][1] / max(case["bulk"], 1), 1 + lb[-1][1] / max(case["bulk"], 1), 1e-7)
         return c.result(dict(case=case["key"], iterations=cnt_c, cells=int(mesh.ncells)))
+    if kind == "ni-created":
+        fk = case["fk"]
+        if fk == "3d":
+            mesh = fem.Cube(n=3)
+            region = fem.RegionHexahedron(mesh)
+            F_ = fem.Field
+        else:
+            mesh = fem.Rectangle(a=(0.0, 0.4 if fk == "axi" else 0.0), b=(1.0, 1.4 if fk == "axi" else 1.0), n=3)
+            region = fem.RegionQuad(mesh)
+            F_ = fem.FieldAxisymmetric if fk == "axi" else fem.FieldPlaneStrain
+        bulk = 25.0
+        u0 = 0.06 * zoo.offarr(seed, 1150, mesh.points.shape) + 0.12 * (mesh.points - mesh.points.mean(0))  # (volume change ~ 25 .. 40 %)
+        for how in ("state=None", "state=given"):
+            fc = fem.FieldContainer([F_(region, dim=mesh.dim, values=u0.copy())])
+            kw_ = {} if how == "state=None" else dict(state=fem.StateNearlyIncompressible(fc))
+            body = fem.SolidBodyNearlyIncompressible(fem.NeoHooke(mu=1.0), fc, bulk=bulk, **kw_)
+            c.trans += 1
+            Fq = fc.extract()[0]
+            dV_ = np.asarray(region.dV, float)
+            if fk == "axi":
+                dV_ = 2 * np.pi * np.asarray(fc[0].radius, float).reshape(dV_.shape) * dV_
+            Jc = (np.linalg.det(np.moveaxis(Fq, (0, 1), (-2, -1))) * dV_).sum(0) / dV_.sum(0)
+            c.cmp(f"{how}/state.J", "volume ratio of the cells stored by a condensed body created on a deformed field = v / V of that field", np.asarray(body.results.state.J, float).ravel(), Jc, 1e-12)
+            c.cmp(f"{how}/state.p", "pressure stored by a condensed body created on a deformed field = bulk (v / V - 1)", 1 + np.asarray(body.results.state.p, float).ravel() / bulk, 1 + (Jc - 1), 1e-12)
+            # asked before it has seen a field argument: same matrix / vector / stress as a body that was handed the field
+            K0 = body.assemble.matrix().toarray()
+            r0 = body.assemble.vector().toarray()[:, 0]
+            ref = fem.SolidBodyNearlyIncompressible(fem.NeoHooke(mu=1.0), fem.FieldContainer([F_(region, dim=mesh.dim, values=u0.copy())]), bulk=bulk)
+            f2 = fem.FieldContainer([F_(region, dim=mesh.dim, values=u0.copy())])
+            r1 = ref.assemble.vector(f2).toarray()[:, 0]
+            K1 = ref.assemble.matrix(f2).toarray()
+            c.trans += 4
+            c.cmp(f"{how}/vector-before-field", "vector of a condensed body created on a deformed field, asked without a field argument", 1 + r0, 1 + r1, 1e-10)
+            c.cmp(f"{how}/matrix-before-field", "matrix of a condensed body created on a deformed field, asked without a field argument", K0, K1, 1e-10)
+        c.outcomes.add("created-on-deformed-field")
+        return c.result(dict(case=case["key"], cells=int(mesh.ncells)))
     if kind == "ni-quadratic":
         fk = case["fk"]
         if fk == "3d":
